@@ -17,6 +17,12 @@
 -/
 import DD.Capacity
 import DD.Capacity2
+import DD.Capacity3
+import DD.Capacity3Cofactor
+import DD.Capacity3Rename
+import DD.Capacity3Cube
+import DD.Capacity3Expr
+import DD.ParseDriver
 import DD.Driver
 open Std
 
@@ -47,7 +53,7 @@ def stepLineCap (s : CapSession) (line : String) : CapSession × String :=
     | some l => if l.startsWith "S:" then (fields0.dropLast, parseSched (l.drop 2).toString) else (fields0, some [])
     | none => (fields0, some [])
   let deleg : CapSession × String :=
-    let (ms', o) := stepLine s.ms line
+    let (ms', o) := stepLineParse s.ms line
     ({ s with ms := ms' }, o)
   match sched with
   | none => (s, "err BAD-SCHEDULE")
@@ -78,6 +84,16 @@ def stepLineCap (s : CapSession) (line : String) : CapSession × String :=
           | none => { s' with caps := s'.caps.erase dst }, o)
       else (s', o)
     | _, _ => (s', o)
+  | [id, "copy", u, dst] =>
+    -- `copy_bdd(u, from, to)` into a target whose capacity was lowered
+    match parseNat? id, parseInt? u, parseNat? dst with
+    | some id, some u, some dst =>
+      match s.caps[dst]?, s.ms[id]? with
+      | some cap, some src =>
+        if id = dst then deleg else
+        runCapOn s dst sched (DRes.int <$> copyBddCapL cap src.tbl u) (DRes.int <$> copyBddCap cap src.tbl u)
+      | _, _ => deleg
+    | _, _, _ => deleg
   | id :: op :: args =>
     match parseNat? id with
     | none => deleg
@@ -106,7 +122,16 @@ def stepLineCap (s : CapSession) (line : String) : CapSession × String :=
         | "apply", aop :: u :: rest =>
           -- operators that do not quantify go through ONE `self.ite`; the quantifier aliases
           -- call `quantify`, which has no capacity-aware model: refused here, never compared
-          if isQuantOp aop then (s, "err NO-CAPACITY-MODEL") else
+          if isQuantOp aop then
+            (match parseInt? u, rest.mapM parseInt? with
+            | some u, some [v] =>
+              if old then runCapOn s id sched (DRes.int <$> applyCapQO cap aop u (some v) none) (DRes.int <$> applyCapQO cap aop u (some v) none)
+              else runCapOn s id sched (DRes.int <$> applyCapQL cap aop u (some v) none) (DRes.int <$> applyCapQ cap aop u (some v) none)
+            | some u, some [] =>
+              runCapOn s id sched (DRes.int <$> applyCapQL cap aop u none none) (DRes.int <$> applyCapQ cap aop u none none)
+            | some u, some [v, w] =>
+              runCapOn s id sched (DRes.int <$> applyCapQL cap aop u (some v) (some w)) (DRes.int <$> applyCapQ cap aop u (some v) (some w))
+            | _, _ => (s, "err OtherError")) else
           if old then
             (match parseInt? u, rest.mapM parseInt? with
             | some u, some [] => runCapOn s id sched (DRes.int <$> applyG (iteCapO cap) quantify aop u none none) (DRes.int <$> applyG (iteCapO cap) quantify aop u none none)
@@ -118,6 +143,62 @@ def stepLineCap (s : CapSession) (line : String) : CapSession × String :=
           | some u, some [v] => runCapOn s id sched (DRes.int <$> applyCapL cap aop u (some v) none) (DRes.int <$> applyCap cap aop u (some v) none)
           | some u, some [v, w] => runCapOn s id sched (DRes.int <$> applyCapL cap aop u (some v) (some w)) (DRes.int <$> applyCap cap aop u (some v) (some w))
           | _, _ => (s, "err OtherError")
+        | "add_expr", [formula] =>
+          if old then runCapOn s id sched (DRes.int <$> addExprCapO cap (unescape formula)) (DRes.int <$> addExprCapO cap (unescape formula))
+          else runCapOn s id sched (DRes.int <$> addExprCapL cap (unescape formula)) (DRes.int <$> addExprCap cap (unescape formula))
+        | "cube", [d] =>
+          match (parsePairs d).bind (fun ps => ps.mapM fun (k, b) => do
+              let b ← parseBool? b; pure (k, b)) with
+          | some d =>
+            if old then runCapOn s id sched (DRes.int <$> cubeCapO cap d) (DRes.int <$> cubeCapO cap d)
+            else runCapOn s id sched (DRes.int <$> cubeCapL cap d) (DRes.int <$> cubeCap cap d)
+          | none => (s, "err OtherError")
+        | "compose", [u, d] =>
+          match parseInt? u, (parsePairs d).bind (fun ps => ps.mapM fun (k, r) => do
+              let r ← parseInt? r; pure (k, r)) with
+          | some u, some d =>
+            if old then runCapOn s id sched (DRes.int <$> composeCapO cap u d) (DRes.int <$> composeCapO cap u d)
+            else runCapOn s id sched (DRes.int <$> composeCapL cap u d) (DRes.int <$> composeCap cap u d)
+          | _, _ => (s, "err OtherError")
+        | "let_r", [u, d] =>
+          match parseInt? u, (parsePairs d).bind (fun ps => ps.mapM fun (k, r) => do
+              let r ← parseInt? r; pure (k, r)) with
+          | some u, some d =>
+            if old then runCapOn s id sched (DRes.int <$> letRefsG (composeCapO cap) d u) (DRes.int <$> letRefsG (composeCapO cap) d u)
+            else runCapOn s id sched (DRes.int <$> letRefsG (composeCapL cap) d u) (DRes.int <$> letRefsG (composeCap cap) d u)
+          | _, _ => (s, "err OtherError")
+        | "rename", [u, d] =>
+          match parseInt? u, parsePairs d with
+          | some u, some d =>
+            if old then runCapOn s id sched (DRes.int <$> renameCapO cap u d) (DRes.int <$> renameCapO cap u d)
+            else runCapOn s id sched (DRes.int <$> renameCapL cap u d) (DRes.int <$> renameCap cap u d)
+          | _, _ => (s, "err OtherError")
+        | "let_n", [u, d] =>
+          match parseInt? u, parsePairs d with
+          | some u, some d =>
+            if old then runCapOn s id sched (DRes.int <$> letNamesG (renameCapO cap) d u) (DRes.int <$> letNamesG (renameCapO cap) d u)
+            else runCapOn s id sched (DRes.int <$> letNamesG (renameCapL cap) d u) (DRes.int <$> letNamesG (renameCap cap) d u)
+          | _, _ => (s, "err OtherError")
+        | "cofactor", [u, d] =>
+          match parseInt? u, (parsePairs d).bind (fun ps => ps.mapM fun (k, b) => do
+              let k ← parseKey k; let b ← parseBool? b; pure (k, b)) with
+          | some u, some d =>
+            if old then runCapOn s id sched (DRes.int <$> cofactorCapO cap u d) (DRes.int <$> cofactorCapO cap u d)
+            else runCapOn s id sched (DRes.int <$> cofactorCapL cap u d) (DRes.int <$> cofactorCap cap u d)
+          | _, _ => (s, "err OtherError")
+        | "let_b", [u, d] =>
+          match parseInt? u, (parsePairs d).bind (fun ps => ps.mapM fun (k, b) => do
+              let k ← parseKey k; let b ← parseBool? b; pure (k, b)) with
+          | some u, some d =>
+            if old then runCapOn s id sched (DRes.int <$> letBoolsG (cofactorCapO cap) d u) (DRes.int <$> letBoolsG (cofactorCapO cap) d u)
+            else runCapOn s id sched (DRes.int <$> letBoolsG (cofactorCapL cap) d u) (DRes.int <$> letBoolsG (cofactorCap cap) d u)
+          | _, _ => (s, "err OtherError")
+        | "quantify", [u, q, fa] =>
+          match parseInt? u, parseKeys q, parseBool? fa with
+          | some u, some q, some fa =>
+            if old then runCapOn s id sched (DRes.int <$> quantifyCapO cap u q fa) (DRes.int <$> quantifyCapO cap u q fa)
+            else runCapOn s id sched (DRes.int <$> quantifyCapL cap u q fa) (DRes.int <$> quantifyCap cap u q fa)
+          | _, _, _ => (s, "err OtherError")
         | "swap", [a, b] =>
           -- `BDD.swap` goes through `find_or_add`: finding F22 (a refusal there leaves the manager
           -- half-swapped); the model with capacity says what exactly is left
